@@ -177,10 +177,18 @@ def run(tier, v):
         "group_by under `...` is compared as 'all labels' (the inherited list is not used by the dispatcher while group_by_all holds)",
         "Route.Key / Route.ID strings are compared as drift only (not in the statement); the dispatcher's groups are matched by the id the code gives to the expected route",
     ]
+    # the whole program: reloads of a running app.App (good / refused by config.Load / refused at apply time),
+    # status text, API receivers and deliveries judged against spec/AppSys.tla
+    from checks import appcommon
+    coverage["whole_program"] = appcommon.run_app_system(PID, tier, v)
+    assumptions = list(assumptions) + appcommon.ASSUMPTIONS
     return "model_checking", coverage, assumptions
 
 
 def replay(path, v):
+    if "appsys" in os.path.basename(path):
+        from checks import appcommon
+        return appcommon.replay(PID, path, v)
     binp = vlib.go_build_test(PID, "c07")
     wd = os.path.join(vlib.OUT, PID)
     data = json.load(open(path))
